@@ -20,24 +20,25 @@
 /*@unit {'name':'c11_utf32_get_strict', 'props':['C11'], 'entry':'h_get', 'enforce':'CODEC_get', 'defines':['ENC=32'], 'replay':'c11_utf', 'witness_defines':[], 'witness_vars':['w_avail','w_u'],
   'claims':'same contract with the strict reference (D800..DFFF are not Unicode scalar values, D90)'}@*/
 /* ---------------- units: validate */
-/*@unit {'name':'c11_utf8_validate',  'props':['C11'], 'entry':'h_validate', 'enforce':'CODEC_validate', 'defines':['ENC=8'], 'replay':'c11_utf', 'witness_defines':[], 'witness_vars':['w_n','w_u'],
+/*@unit {'name':'c11_utf8_validate',  'props':['C11'], 'entry':'h_validate', 'enforce':'CODEC_validate', 'defines':['ENC=8'], 'replay':'c11_utf', 'witness_defines':[], 'witness_vars':['w_n','w_u','w_noerr'],
   'claims':'_utf_codec<8>::validate(s,e) reads only [s,e) and returns true iff the buffer does not end in a truncated multi-unit sequence (so every decode step inside it satisfies the tail rule)'}@*/
-/*@unit {'name':'c11_utf16_validate', 'props':['C11'], 'entry':'h_validate', 'enforce':'CODEC_validate', 'defines':['ENC=16'], 'replay':'c11_utf', 'witness_defines':[], 'witness_vars':['w_n','w_u'], 'claims':'validate for UTF-16: last unit is not a high surrogate'}@*/
-/*@unit {'name':'c11_utf32_validate', 'props':['C11'], 'entry':'h_validate', 'enforce':'CODEC_validate', 'defines':['ENC=32'], 'replay':'c11_utf', 'witness_defines':[], 'witness_vars':['w_n','w_u'], 'claims':'validate for UTF-32: s <= e'}@*/
+/*@unit {'name':'c11_utf16_validate', 'props':['C11'], 'entry':'h_validate', 'enforce':'CODEC_validate', 'defines':['ENC=16'], 'replay':'c11_utf', 'witness_defines':[], 'witness_vars':['w_n','w_u','w_noerr'], 'claims':'validate for UTF-16: last unit is not a high surrogate'}@*/
+/*@unit {'name':'c11_utf32_validate', 'props':['C11'], 'entry':'h_validate', 'enforce':'CODEC_validate', 'defines':['ENC=32'], 'replay':'c11_utf', 'witness_defines':[], 'witness_vars':['w_n','w_u','w_noerr'], 'claims':'validate for UTF-32: s <= e'}@*/
 /* ---------------- units: the counting loop (loop contracts; buffer length symbolic up to MAXN units) */
 /*@unit {'name':'c11_count8_end',  'props':['C11'], 'entry':'h_count_end', 'enforce':'count_unicode_chars', 'replace':['CODEC_get','CODEC_validate'], 'defines':['ENC=8','REF_LENIENT_SURROGATES'], 'defines_quick':['ENC=8','REF_LENIENT_SURROGATES','MAXN=256'], 'min_loops':1, 'cost':30,
-  'replay':'c11_utf', 'witness_defines':['WITNESS'], 'witness_vars':['w_n','w_u'],
+  'replay':'c11_utf', 'witness_defines':['WITNESS'], 'witness_vars':['w_n','w_u','w_noerr'],
   'claims':'gr_count_unicode_characters(utf8, begin, end): never reads outside [begin,end); returns the reference character count with *pError==NULL on well-formed text; reports an error exactly when the reference decoder meets an ill-formed sequence first; *pError inside the buffer; terminates'}@*/
-/*@unit {'name':'c11_count16_end', 'props':['C11'], 'entry':'h_count_end', 'enforce':'count_unicode_chars', 'replace':['CODEC_get','CODEC_validate'], 'defines':['ENC=16','REF_LENIENT_SURROGATES'], 'defines_quick':['ENC=16','REF_LENIENT_SURROGATES','MAXN=256'], 'min_loops':1, 'cost':30, 'replay':'c11_utf', 'witness_defines':['WITNESS'], 'witness_vars':['w_n','w_u'], 'claims':'same for UTF-16'}@*/
-/*@unit {'name':'c11_count32_end', 'props':['C11'], 'entry':'h_count_end', 'enforce':'count_unicode_chars', 'replace':['CODEC_get','CODEC_validate'], 'defines':['ENC=32','REF_LENIENT_SURROGATES'], 'defines_quick':['ENC=32','REF_LENIENT_SURROGATES','MAXN=256'], 'min_loops':1, 'cost':30, 'replay':'c11_utf', 'witness_defines':['WITNESS'], 'witness_vars':['w_n','w_u'], 'claims':'same for UTF-32'}@*/
-/*@unit {'name':'c11_count8_nul',  'props':['C11'], 'entry':'h_count_nul', 'enforce':'count_unicode_chars', 'replace':['CODEC_get','CODEC_validate'], 'defines':['ENC=8','REF_LENIENT_SURROGATES'], 'defines_quick':['ENC=8','REF_LENIENT_SURROGATES','MAXN=256'], 'min_loops':1, 'cost':30, 'replay':'c11_utf', 'witness_defines':['WITNESS'], 'witness_vars':['w_n','w_u'],
+/*@unit {'name':'c11_count16_end', 'props':['C11'], 'entry':'h_count_end', 'enforce':'count_unicode_chars', 'replace':['CODEC_get','CODEC_validate'], 'defines':['ENC=16','REF_LENIENT_SURROGATES'], 'defines_quick':['ENC=16','REF_LENIENT_SURROGATES','MAXN=256'], 'min_loops':1, 'cost':30, 'replay':'c11_utf', 'witness_defines':['WITNESS'], 'witness_vars':['w_n','w_u','w_noerr'], 'claims':'same for UTF-16'}@*/
+/*@unit {'name':'c11_count32_end', 'props':['C11'], 'entry':'h_count_end', 'enforce':'count_unicode_chars', 'replace':['CODEC_get','CODEC_validate'], 'defines':['ENC=32','REF_LENIENT_SURROGATES'], 'defines_quick':['ENC=32','REF_LENIENT_SURROGATES','MAXN=256'], 'min_loops':1, 'cost':30, 'replay':'c11_utf', 'witness_defines':['WITNESS'], 'witness_vars':['w_n','w_u','w_noerr'], 'claims':'same for UTF-32'}@*/
+/*@unit {'name':'c11_count8_nul',  'props':['C11'], 'entry':'h_count_nul', 'enforce':'count_unicode_chars', 'replace':['CODEC_get','CODEC_validate'], 'defines':['ENC=8','REF_LENIENT_SURROGATES'], 'defines_quick':['ENC=8','REF_LENIENT_SURROGATES','MAXN=256'], 'min_loops':1, 'cost':30, 'replay':'c11_utf', 'witness_defines':['WITNESS'], 'witness_vars':['w_n','w_u','w_noerr'],
   'claims':'gr_count_unicode_characters(utf8, begin, NULL) on a NUL-terminated string in an exact-size buffer: never reads past the terminating NUL; count and error as above'}@*/
-/*@unit {'name':'c11_count16_nul', 'props':['C11'], 'entry':'h_count_nul', 'enforce':'count_unicode_chars', 'replace':['CODEC_get','CODEC_validate'], 'defines':['ENC=16','REF_LENIENT_SURROGATES'], 'defines_quick':['ENC=16','REF_LENIENT_SURROGATES','MAXN=256'], 'min_loops':1, 'cost':30, 'replay':'c11_utf', 'witness_defines':['WITNESS'], 'witness_vars':['w_n','w_u'], 'claims':'same for UTF-16'}@*/
-/*@unit {'name':'c11_count32_nul', 'props':['C11'], 'entry':'h_count_nul', 'enforce':'count_unicode_chars', 'replace':['CODEC_get','CODEC_validate'], 'defines':['ENC=32','REF_LENIENT_SURROGATES'], 'defines_quick':['ENC=32','REF_LENIENT_SURROGATES','MAXN=256'], 'min_loops':1, 'cost':30, 'replay':'c11_utf', 'witness_defines':['WITNESS'], 'witness_vars':['w_n','w_u'], 'claims':'same for UTF-32'}@*/
+/*@unit {'name':'c11_count16_nul', 'props':['C11'], 'entry':'h_count_nul', 'enforce':'count_unicode_chars', 'replace':['CODEC_get','CODEC_validate'], 'defines':['ENC=16','REF_LENIENT_SURROGATES'], 'defines_quick':['ENC=16','REF_LENIENT_SURROGATES','MAXN=256'], 'min_loops':1, 'cost':30, 'replay':'c11_utf', 'witness_defines':['WITNESS'], 'witness_vars':['w_n','w_u','w_noerr'], 'claims':'same for UTF-16'}@*/
+/*@unit {'name':'c11_count32_nul', 'props':['C11'], 'entry':'h_count_nul', 'enforce':'count_unicode_chars', 'replace':['CODEC_get','CODEC_validate'], 'defines':['ENC=32','REF_LENIENT_SURROGATES'], 'defines_quick':['ENC=32','REF_LENIENT_SURROGATES','MAXN=256'], 'min_loops':1, 'cost':30, 'replay':'c11_utf', 'witness_defines':['WITNESS'], 'witness_vars':['w_n','w_u','w_noerr'], 'claims':'same for UTF-32'}@*/
 
 /*@include utf_common.tc@*/
 
 /* ghost state of the lock-step reference counter (updated only by inserted ghost statements) */
+const void **g_errp;
 const CU *g_pos;  size_t g_cnt;  bool g_stopped;  bool g_ill;  const CU *g_illpos;  bool g_nulmode; size_t g_n;
 #define GHOST_STEP(itp) do { const CU *p_ = (itp)->cp; ref_t gr_ = REF(p_, AVAIL(p_)); \
       if (!gr_.ok)            { g_stopped = true; g_ill = true; g_illpos = p_; } \
@@ -49,17 +50,17 @@ __CPROVER_requires(first.cp == g_begin && first.sl == 1 && SAME(g_begin, g_end) 
 __CPROVER_requires(OFF(g_begin) == 0 && OFF(g_end) == (long)OBJSZ(g_end))
 __CPROVER_requires(g_nulmode ? (last.cp == NULL && g_n + 1 == AVAIL(g_begin) && g_begin[g_n] == 0) : (last.cp == g_end && g_n == AVAIL(g_begin)))
 __CPROVER_requires(g_n <= MAXN && g_cnt == 0 && !g_stopped && !g_ill && g_pos == g_begin)
-__CPROVER_requires(__CPROVER_is_fresh(error, sizeof(*error)))
-__CPROVER_assigns(*error, g_pos, g_cnt, g_stopped, g_ill, g_illpos)
+__CPROVER_requires(error == g_errp)                      /* the caller's pError: a valid object or NULL */
+__CPROVER_assigns(error != NULL: *error; g_pos, g_cnt, g_stopped, g_ill, g_illpos)
 /* error pointer is NULL or inside the buffer */
-__CPROVER_ensures(*error == NULL || (SAME(*error, g_begin) && OFF(*error) >= 0 && OFF(*error) < OFF(g_end)))
+__CPROVER_ensures(error == NULL || *error == NULL || (SAME(*error, g_begin) && OFF(*error) >= 0 && OFF(*error) < OFF(g_end)))
 /* end-delimited buffer ending in a truncated sequence: error at the last unit, count 0 */
-__CPROVER_ensures((!g_nulmode && TRUNCATED(g_begin, g_end, g_n)) ==> (__CPROVER_return_value == 0 && *error == (const void *)(g_end - 1)))
+__CPROVER_ensures((!g_nulmode && TRUNCATED(g_begin, g_end, g_n)) ==> (__CPROVER_return_value == 0 && (error == NULL || *error == (const void *)(g_end - 1))))
 /* otherwise: the count is the reference count, an error is reported iff the reference decoder met an ill-formed sequence
    before a NUL / the end, and it points at that sequence */
 __CPROVER_ensures(!(!g_nulmode && TRUNCATED(g_begin, g_end, g_n)) ==>
       (__CPROVER_return_value == g_cnt && __CPROVER_return_value <= g_n
-       && (g_ill ? *error == (const void *)g_illpos : *error == NULL)
+       && (error == NULL || (g_ill ? *error == (const void *)g_illpos : *error == NULL))
        && (g_stopped || g_nulmode || g_pos == g_end)));
 
 /*@extract {'file':'src/gr_segment.cpp', 'sig': r'inline size_t count_unicode_chars\(utf_iter first, const utf_iter last, const void \*\*error\)',
@@ -86,7 +87,7 @@ __CPROVER_ensures(!(!g_nulmode && TRUNCATED(g_begin, g_end, g_n)) ==>
                    __CPROVER_decreases(OFF(g_end) - OFF(first.cp))""" } }@*/
 
 /* ------------------------------------------------------------------ harnesses */
-size_t nondet_size_t(void);
+size_t nondet_size_t(void); bool nondet_bool(void);
 #define FILLW(p, n, b, K) do { for (int i_ = 0; i_ < (K); ++i_) if ((size_t)i_ < (n)) (p)[i_] = (b)[i_]; } while (0)
 
 void h_get(void)
@@ -145,8 +146,9 @@ void h_count_end(void)
     g_begin = buf; g_end = buf + w_n; g_n = w_n; g_nulmode = false;
     g_pos = buf; g_cnt = 0; g_stopped = false; g_ill = false;
     utf_iter first = { buf, 1 }, last = { buf + w_n, 1 };
-    const void *err;
-    size_t r = count_unicode_chars(first, last, &err);
+    const void *err; bool w_noerr = nondet_bool();
+    g_errp = w_noerr ? (const void **)0 : &err;          /* pError may be NULL */
+    size_t r = count_unicode_chars(first, last, g_errp);
     (void)r;
     CANARY();
 }
@@ -166,8 +168,9 @@ void h_count_nul(void)
     g_begin = buf; g_end = buf + w_n + 1; g_n = w_n; g_nulmode = true;
     g_pos = buf; g_cnt = 0; g_stopped = false; g_ill = false;
     utf_iter first = { buf, 1 }, last = { NULL, 1 };
-    const void *err;
-    size_t r = count_unicode_chars(first, last, &err);
+    const void *err; bool w_noerr = nondet_bool();
+    g_errp = w_noerr ? (const void **)0 : &err;          /* pError may be NULL */
+    size_t r = count_unicode_chars(first, last, g_errp);
     (void)r;
     CANARY();
 }
